@@ -352,7 +352,12 @@ package orda
 //@   requires listWF(its) && pos >= 0 && pos <= its.size && its.size < 4611686018427387904
 //@   requires forall t in tts :: newTT(t) && !(ttKey(t) in its.Map)
 //@   requires forall a int, b int :: 0 <= a && a < b && b < len(tts) ==> ttKey(tts[a]) != ttKey(tts[b])
-//@   loop 0 invariant linkWF(its) && indexWF(its) && keyTie(its) && valuesWF(its)
+//@   loop 0 invariant[link] linkWF(its)
+//@   loop 0 invariant[index] indexWF(its)
+//@   loop 0 invariant[keys] keyTie(its)
+//@   loop 0 invariant[values-head] tnOf(on(its.head)).V == nil
+//@   loop 0 invariant[values-times] valuesTimed(its)
+//@   loop 0 invariant[values-alloc] valuesAlloc(its)
 //@   loop 0 invariant target != nil && target.(*orderedNode) && inList(its, on(target)) && rangeindex + 1 <= len(tts)
 //@   loop 0 invariant its.size == old(its.size) + rangeindex + 1 && len(inserted) == rangeindex + 1
 //@   loop 0 invariant forall n *orderedNode :: {n.$list} old(inList(its, n)) ==> inList(its, n) && n.$pos == old(n.$pos)
@@ -367,7 +372,7 @@ package orda
 //@   ensures[inserted-once]   forall j int :: 0 <= j && j < len(tts) ==> ttKey(tts[j]) in its.Map && on(its.Map[ttKey(tts[j])]).timedType == tts[j] && !old(inList(its, on(its.Map[ttKey(tts[j])])))
 //@   ensures[anchor]          result0 != nil && keyOf(result0) in its.Map && old(inList(its, on(its.Map[keyOf(result0)])))
 //@   ensures[after-anchor]  forall j int :: 0 <= j && j < len(tts) ==> on(its.Map[keyOf(result0)]).$pos < on(its.Map[ttKey(tts[j])]).$pos
-//@   ensures[contiguous]    forall j int, m *orderedNode :: {tts[j], m.$list} 0 <= j && j < len(tts) && old(inList(its, m)) ==> !(on(its.Map[keyOf(result0)]).$pos < m.$pos && m.$pos <= on(its.Map[ttKey(tts[j])]).$pos)
+//@   ensures[contiguous]    forall j int, m *orderedNode :: {tts[j], old(m.$list)} 0 <= j && j < len(tts) && old(inList(its, m)) ==> !(on(its.Map[keyOf(result0)]).$pos < m.$pos && m.$pos <= on(its.Map[ttKey(tts[j])]).$pos)
 //@   modifies listSnapshot.size, map[string]orderedType, orderedNode.next, orderedNode.prev, orderedNode.$list, orderedNode.$pos, orderedNode.$key, alloc
 
 // A remote insert: the anchor is named by its identifier (pos). The batch belongs to ONE operation (all
